@@ -132,6 +132,79 @@ var c25Progs = [][]byte{
 		0x2c,       // INC L
 		0x18, 0xfc, // JR back
 	}}),
+	// P7 sound: power-cycles the APU, programs channel 1's sweep and channels 2-4, logs NR10/NR52 read-backs
+	machine.Program(map[uint16][]byte{0x100: {
+		0x21, 0x00, 0xc0, // LD HL,C000
+		0xaf,       // XOR A
+		0xe0, 0x26, // LDH (26),A   sound off
+		0x3e, 0x80, // LD A,80
+		0xe0, 0x26, // LDH (26),A   sound on
+		0x3e, 0x15, // LD A,15
+		0xe0, 0x10, // LDH (10),A   sweep period 1, add, shift 5
+		0x3e, 0xf0, // LD A,F0
+		0xe0, 0x12, // LDH (12),A
+		0x3e, 0x00, // LD A,00
+		0xe0, 0x13, // LDH (13),A
+		0x3e, 0x87, // LD A,87
+		0xe0, 0x14, // LDH (14),A   trigger, f=700
+		0xf0, 0x10, // LDH A,(10)
+		0x22,       // LD (HL+),A
+		0xf0, 0x26, // LDH A,(26)
+		0x22,       // LD (HL+),A
+		0x7d,       // LD A,L
+		0xe6, 0x3f, // AND 3F
+		0x6f,       // LD L,A
+		0x18, 0xf5, // JR back to LDH A,(10)
+	}}),
+	// P8 sound, different settings (so that state leaking between instances shows): sweep subtracting, other frequency
+	machine.Program(map[uint16][]byte{0x100: {
+		0x21, 0x00, 0xc0, // LD HL,C000
+		0xaf,       // XOR A
+		0xe0, 0x26, // LDH (26),A
+		0x3e, 0x80, // LD A,80
+		0xe0, 0x26, // LDH (26),A
+		0x3e, 0x2a, // LD A,2A
+		0xe0, 0x10, // LDH (10),A   sweep period 2, subtract, shift 2
+		0x3e, 0xa0, // LD A,A0
+		0xe0, 0x12, // LDH (12),A
+		0x3e, 0x55, // LD A,55
+		0xe0, 0x13, // LDH (13),A
+		0x3e, 0x85, // LD A,85
+		0xe0, 0x14, // LDH (14),A
+		0xf0, 0x10, // LDH A,(10)
+		0x22,       // LD (HL+),A
+		0xf0, 0x26, // LDH A,(26)
+		0x22,       // LD (HL+),A
+		0x7d,       // LD A,L
+		0xe6, 0x3f, // AND 3F
+		0x6f,       // LD L,A
+		0x18, 0xf5, // JR back
+	}}),
+	// P9 video/DMA/serial/joypad: LCD off, VRAM and OAM writes, palettes, LCD on, OAM DMA, serial byte, JOYP select
+	machine.Program(map[uint16][]byte{0x100: {
+		0xaf,       // XOR A
+		0xe0, 0x40, // LDH (40),A   LCD off
+		0x21, 0x00, 0x80, // LD HL,8000
+		0x3e, 0x3c, // LD A,3C
+		0x22,       // LD (HL+),A
+		0x22,       // LD (HL+),A
+		0xea, 0x00, 0xfe, // LD (FE00),A
+		0x3e, 0x1b, // LD A,1B
+		0xe0, 0x47, // LDH (47),A   BGP
+		0x3e, 0x41, // LD A,41
+		0xe0, 0x01, // LDH (01),A   serial
+		0x3e, 0x10, // LD A,10
+		0xe0, 0x00, // LDH (00),A   JOYP select
+		0x3e, 0x93, // LD A,93
+		0xe0, 0x40, // LDH (40),A   LCD on
+		0x3e, 0xc0, // LD A,C0
+		0xe0, 0x46, // LDH (46),A   DMA from C000
+		0xf0, 0x44, // LDH A,(44)
+		0xea, 0x10, 0xc0, // LD (C010),A
+		0xf0, 0x00, // LDH A,(00)
+		0xea, 0x11, 0xc0, // LD (C011),A
+		0x18, 0xf4, // JR back to LDH A,(44)
+	}}),
 }
 
 type c25Case struct {
@@ -324,15 +397,15 @@ func init() {
 			c.R.Assumptions = []string{"instances are wired like gameboy.New (machine.New; C26 checks the wiring equivalence)", "explored in one goroutine so that a shared-state defect fails deterministically; true parallel execution is covered by a separate free-running pass of the same bodies under the Go race detector (supporting evidence)"}
 		}
 		type shape struct{ n, k int }
-		shapes := []shape{{2, 5}, {3, 2}}
+		shapes := []shape{{2, 4}, {3, 2}}
 		units := []int{1, 7}
 		if c.Thorough() {
 			shapes = []shape{{2, 8}, {3, 4}}
 			units = []int{1, 7, 61}
 		}
 		gen := func(yield func(c25Case) bool) {
-			progSets2 := [][]int{{0, 1}, {1, 2}, {2, 0}, {2, 2}, {3, 4}, {4, 3}, {4, 4}, {5, 5}, {3, 6}, {6, 4}}
-			progSets3 := [][]int{{0, 1, 2}, {2, 1, 0}, {3, 5, 4}}
+			progSets2 := [][]int{{0, 1}, {1, 2}, {2, 0}, {2, 2}, {3, 4}, {4, 3}, {4, 4}, {5, 5}, {3, 6}, {6, 4}, {7, 8}, {8, 7}, {7, 7}, {9, 9}, {9, 2}}
+			progSets3 := [][]int{{0, 1, 2}, {2, 1, 0}, {3, 5, 4}, {7, 9, 8}}
 			for _, sh := range shapes {
 				sets := progSets2
 				if sh.n == 3 {
@@ -354,8 +427,11 @@ func init() {
 				}
 			}
 			// frame-sized steps: 2 instances x 3 frames, 3 x 2
-			for _, sh := range []shape{{2, 3}, {3, 2}} {
-				ps := []int{2, 1, 0}[:sh.n]
+			for _, sh := range []shape{{2, 3}, {3, 2}, {2, 4}} {
+				ps := []int{2, 1, 0}[:min(sh.n, 3)]
+				if sh.k == 4 {
+					ps = []int{7, 8} // the sweep unit needs a few frames to act
+				}
 				for cr := 0; cr < 3; cr++ {
 					ok := true
 					interleavings(sh.n, sh.k, func(s []int) bool {
@@ -370,7 +446,7 @@ func init() {
 		}
 		explore.Product(c.R, "interleavings", explore.PartOpt{Workers: 1, Guard: true,
 			Bound:  fmt.Sprintf("all interleavings of shapes %v (instances x steps), units %v cycles + frame steps 2x3, 3x2; 3 creation orders", shapes, units),
-			Domain: "7 guest programs (ALU/CB/branches; stores/stack/CALL; timer interrupt + HALT; cartridge RAM writer on MBC1 with 4 banks; cartridge RAM read-before-write on MBC1 with 1 bank, on MBC2 and on MBC5)"},
+			Domain: "10 guest programs (ALU/CB/branches; stores/stack/CALL; timer interrupt + HALT; cartridge RAM writer on MBC1 with 4 banks; cartridge RAM read-before-write on MBC1 with 1 bank, on MBC2 and on MBC5; two sound programs that power-cycle the APU and run different channel-1 sweeps; video + OAM DMA + serial + joypad select)"},
 			gen, func() *c25Env { return &c25Env{solo: map[string][]uint64{}} }, c25Check)
 		c25RacePass(c)
 	})
